@@ -242,11 +242,19 @@ class Gen:
         d, s, n = fq
         rows = self.m.dbs[d][s]["tables"][n]["rows"]
         r = self.rng.random()
-        if depth < 2 and r < 0.25:
-            k = self.rng.choice(["and", "or", "not"])
+        if depth < 2 and r < 0.3:
+            k = self.rng.choice(["and", "or", "not", "not"])
             if k == "not":
-                return ["not", self.predicate(fq, depth + 1)]
-            return [k, self.predicate(fq, depth + 1), self.predicate(fq, depth + 1)]
+                inner = self.predicate(fq, depth + 1)
+                if inner[0] not in ("and", "or") and self.rng.random() < 0.5:
+                    inner = [self.rng.choice(["and", "or"]), inner, self.predicate(fq, depth + 1)]  # NOT over a compound: where two-valued shortcuts go wrong
+                return ["not", inner]
+            a = self.predicate(fq, depth + 1)
+            b = self.predicate(fq, depth + 1)
+            if a[0] == "cmp" and self.rng.random() < 0.35:
+                # a second comparison on the same column: ranges that contradict or complement each other (what a simplifier would fold)
+                b = ["cmp", a[1], self.rng.choice(["=", "<>", "<", "<=", ">", ">="]), a[3] if self.rng.random() < 0.5 else b[3] if b[0] == "cmp" and b[1] == a[1] else a[3]]
+            return [k, a, b]
         if r < 0.32:
             return self.rng.choice([["true"], ["false"]])
         c = self.rng.choice(cols)
